@@ -552,6 +552,9 @@ pub fn coq_shape(s: &Sh) -> String {
 pub struct Plan {
     pub choice: BTreeMap<String, usize>,
     pub omit: Option<(String, String)>,
+    /// drive the struct (or struct variant) with this (name, first field name) through visit_seq,
+    /// offering only its first k fields (serde_json does that for a JSON array)
+    pub seq: Option<(String, String, usize)>,
 }
 
 /// What one probe run saw: the de-side tree, and how many variants each enum declares.
@@ -689,6 +692,15 @@ impl<'de, 'a, 'p> de::Deserializer<'de> for &'a mut Probe<'p> {
         fields: &'static [&'static str],
         v: V,
     ) -> Result<V::Value, RecErr> {
+        if let Some((sn, ff, k)) = &self.plan.seq {
+            if sn == name && fields.first().map(|f| *f == ff.as_str()).unwrap_or(ff.is_empty()) {
+                let mut acc = SeqProbe { parent: self.child(), left: *k, elems: vec![] };
+                let r = v.visit_seq(&mut acc);
+                self.absorb(&acc.parent);
+                self.tree = Some(Sh::Bad("seq probe".into()));
+                return r;
+            }
+        }
         let mut acc = MapProbe::new(self.child(), name, fields);
         let r = v.visit_map(&mut acc);
         self.absorb(&acc.parent);
@@ -703,7 +715,7 @@ impl<'de, 'a, 'p> de::Deserializer<'de> for &'a mut Probe<'p> {
     ) -> Result<V::Value, RecErr> {
         self.enums.insert(name.into(), variants.len());
         let idx = self.plan.choice.get(name).copied().unwrap_or(0).min(variants.len().saturating_sub(1));
-        let mut acc = EnumProbe { parent: self.child(), idx, kind: None };
+        let mut acc = EnumProbe { parent: self.child(), idx, kind: None, vname: variants.get(idx).copied().unwrap_or("") };
         let r = v.visit_enum(&mut acc);
         self.absorb(&acc.parent);
         let mut vs: Vec<Option<(String, Vk)>> = variants.iter().map(|_| None).collect();
@@ -801,6 +813,7 @@ struct EnumProbe<'p> {
     parent: Probe<'p>,
     idx: usize,
     kind: Option<Vk>,
+    vname: &'static str,
 }
 impl<'de, 'a, 'p> de::EnumAccess<'de> for &'a mut EnumProbe<'p> {
     type Error = RecErr;
@@ -828,6 +841,15 @@ impl<'de, 'a, 'p> de::VariantAccess<'de> for &'a mut EnumProbe<'p> {
         Err(RecErr("tuple variants are not scripted".into()))
     }
     fn struct_variant<V: Visitor<'de>>(self, fields: &'static [&'static str], v: V) -> Result<V::Value, RecErr> {
+        if let Some((sn, ff, k)) = &self.parent.plan.seq {
+            if sn == self.vname && fields.first().map(|f| *f == ff.as_str()).unwrap_or(ff.is_empty()) {
+                let mut acc = SeqProbe { parent: self.parent.child(), left: *k, elems: vec![] };
+                let r = v.visit_seq(&mut acc);
+                self.parent.absorb(&acc.parent);
+                self.kind = Some(Vk::Struct(vec![]));
+                return r;
+            }
+        }
         let mut acc = MapProbe::new(self.parent.child(), "", fields);
         // a struct variant's fields are addressed as (enum-variant has no struct name): use the
         // plan's omit with an empty struct name never matching; defaults of variant fields are
@@ -906,7 +928,7 @@ pub fn de_shape<T: for<'de> de::Deserialize<'de>>() -> Sh {
     for _round in 0..4 {
         let combos = combos(&enums);
         for c in &combos {
-            let plan = Plan { choice: c.clone(), omit: None };
+            let plan = Plan { choice: c.clone(), omit: None, seq: None };
             let (r, t, es) = probe::<T>(&plan);
             for (k, v) in es {
                 enums.insert(k, v);
@@ -929,7 +951,7 @@ pub fn de_shape<T: for<'de> de::Deserialize<'de>>() -> Sh {
         let mut ok_somewhere = false;
         let mut reached = false;
         for c in combos(&enums) {
-            let with = Plan { choice: c.clone(), omit: Some((s.clone(), f.clone())) };
+            let with = Plan { choice: c.clone(), omit: Some((s.clone(), f.clone())), seq: None };
             let (r, _, _) = probe::<T>(&with);
             // the omission only matters in combinations that reach the struct; a run that does
             // not reach it succeeds trivially, so require a failing control: the same field of
@@ -974,4 +996,74 @@ pub fn ser_shape(traces: &[Vec<Ev>]) -> Sh {
         });
     }
     t.unwrap_or(Sh::Bad("no trace".into()))
+}
+
+/// The visit_seq acceptance table of every struct / struct variant of T, in the depth-first order of
+/// Wire.seq_table: (name, first field, [accepted with the first k fields offered, k = 0..n]).
+/// A prefix is accepted iff the real Deserialize impl, driven through visit_seq with exactly those
+/// elements, succeeds in every combination of variant choices.
+pub fn seq_table<T: for<'de> de::Deserialize<'de>>(tree: &Sh) -> Vec<(String, String, Vec<bool>)> {
+    // the enums and their sizes, as de_shape discovers them
+    let mut enums: BTreeMap<String, usize> = BTreeMap::new();
+    for _ in 0..4 {
+        for c in combos(&enums) {
+            let (_, _, es) = probe::<T>(&Plan { choice: c, omit: None, seq: None });
+            for (k, v) in es {
+                enums.insert(k, v);
+            }
+        }
+    }
+    let all = combos(&enums);
+    let accepts = |name: &str, first: &str, n: usize| -> Vec<bool> {
+        (0..=n)
+            .map(|k| {
+                all.iter().all(|c| {
+                    let plan = Plan { choice: c.clone(), omit: None, seq: Some((name.to_string(), first.to_string(), k)) };
+                    probe::<T>(&plan).0.is_ok()
+                })
+            })
+            .collect()
+    };
+    fn walk(s: &Sh, acc: &dyn Fn(&str, &str, usize) -> Vec<bool>, out: &mut Vec<(String, String, Vec<bool>)>) {
+        fn fields(fs: &[Fld], acc: &dyn Fn(&str, &str, usize) -> Vec<bool>, out: &mut Vec<(String, String, Vec<bool>)>) {
+            for f in fs {
+                walk(&f.sh, acc, out);
+            }
+        }
+        match s {
+            Sh::Tuple(_, e) | Sh::Newtype(_, e) => walk(e, acc, out),
+            Sh::Struct(n, fs) => {
+                let first = fs.first().map(|f| f.name.clone()).unwrap_or_default();
+                out.push((n.clone(), first.clone(), acc(n, &first, fs.len())));
+                fields(fs, acc, out);
+            }
+            Sh::Enum(_, vs) => {
+                for v in vs.iter().flatten() {
+                    match &v.1 {
+                        Vk::Unit => {}
+                        Vk::Newtype(e) => walk(e, acc, out),
+                        Vk::Struct(fs) => {
+                            let first = fs.first().map(|f| f.name.clone()).unwrap_or_default();
+                            out.push((v.0.clone(), first.clone(), acc(&v.0, &first, fs.len())));
+                            fields(fs, acc, out);
+                        }
+                    }
+                }
+            }
+            _ => {}
+        }
+    }
+    let mut out = vec![];
+    walk(tree, &accepts, &mut out);
+    out
+}
+
+pub fn coq_seq_table(t: &[(String, String, Vec<bool>)]) -> String {
+    let items: Vec<String> = t
+        .iter()
+        .map(|(a, b, v)| {
+            format!("({}, {}, [{}])", coq_str(a), coq_str(b), v.iter().map(|x| x.to_string()).collect::<Vec<_>>().join("; "))
+        })
+        .collect();
+    format!("[{}]", items.join(";\n   "))
 }
